@@ -1,7 +1,8 @@
 package main
 
-// C04: histories of box-set operations (toolbox3d.RectSet Add / Remove / AddRectSet / RemoveRectSet, including
-// removals that miss the set) against the plain set algebra of the same boxes; judged by
+// C04: histories of box-set operations on two sets (toolbox3d.RectSet Add / Remove / AddRectSet / RemoveRectSet with a
+// fresh one-box set or the other set as the argument, including removals that miss the set) against the plain set
+// algebra of the same boxes; both sets are observed at the end; judged by
 // spec/solids/RectOpsJudge.tla.  Boxes have integer corners, probes are the half-integer points (never on
 // a face) plus the integer points that lie on no face of any box of the history.
 
@@ -13,25 +14,28 @@ import (
 )
 
 type rectOp struct {
-	Op string `json:"op"` // add | remove | addset | removeset (the *set variants pass a one-box RectSet)
-	Lo []int  `json:"lo"`
-	Hi []int  `json:"hi"`
+	Op  string `json:"op"`  // add | remove | addset | removeset
+	Set int    `json:"set"` // the set operated on (1 or 2)
+	Src int    `json:"src"` // addset / removeset: 0 = a fresh one-box RectSet (lo, hi), otherwise the other set as it is then
+	Lo  []int  `json:"lo"`
+	Hi  []int  `json:"hi"`
 }
 
 type rectOpsRec struct {
-	ID     int      `json:"id"`
-	Site   string   `json:"site"`
-	Ops    []rectOp `json:"ops"`
-	Plo    []int    `json:"plo"` // probe lattice in half units
-	Phi    []int    `json:"phi"`
-	Inside []int    `json:"inside"` // indices (1-based, x fastest) of contained probes
-	Empty  bool     `json:"empty"`  // the set has no cells (bounds are then not prescribed)
-	Smin   []int    `json:"smin"`   // RectSet.Min / Max in half units
-	Smax   []int    `json:"smax"`
-	Bmin   []int    `json:"bmin"` // bounds of RectSet.Solid()
-	Bmax   []int    `json:"bmax"`
-	Bexact bool     `json:"bexact"`
-	Panic  string   `json:"panic"`
+	ID      int      `json:"id"`
+	Site    string   `json:"site"`
+	Ops     []rectOp `json:"ops"`
+	Plo     []int    `json:"plo"` // probe lattice in half units
+	Phi     []int    `json:"phi"`
+	Inside  []int    `json:"inside"`  // indices (1-based, x fastest) of contained probes of set 1
+	Inside2 []int    `json:"inside2"` // the same for set 2 (which also serves as an argument of the set operations)
+	Empty   bool     `json:"empty"`   // the set has no cells (bounds are then not prescribed)
+	Smin    []int    `json:"smin"`    // RectSet.Min / Max in half units
+	Smax    []int    `json:"smax"`
+	Bmin    []int    `json:"bmin"` // bounds of RectSet.Solid()
+	Bmax    []int    `json:"bmax"`
+	Bexact  bool     `json:"bexact"`
+	Panic   string   `json:"panic"`
 }
 
 func init() {
@@ -42,7 +46,7 @@ func init() {
 		rng := rand.New(rand.NewSource(int64(a.int("seed", 1))*53 + 4))
 		stats := map[string]int{}
 		for id := 1; id <= a.int("n", 60); id++ {
-			rec := rectOpsRec{ID: id, Site: "toolbox3d.RectSet", Ops: []rectOp{}, Inside: []int{}, Plo: []int{-9, -9, -9}, Phi: []int{9, 9, 9},
+			rec := rectOpsRec{ID: id, Site: "toolbox3d.RectSet", Ops: []rectOp{}, Inside: []int{}, Inside2: []int{}, Plo: []int{-9, -9, -9}, Phi: []int{9, 9, 9},
 				Smin: []int{0, 0, 0}, Smax: []int{0, 0, 0}, Bmin: []int{0, 0, 0}, Bmax: []int{0, 0, 0}}
 			nops := 1 + rng.Intn(5)
 			for k := 0; k < nops; k++ {
@@ -70,27 +74,67 @@ func init() {
 						hi[i] += sh
 					}
 				}
-				rec.Ops = append(rec.Ops, rectOp{Op: op, Lo: lo[:], Hi: hi[:]})
+				o := rectOp{Op: op, Set: 1, Lo: lo[:], Hi: hi[:]}
+				if id%3 != 0 {
+					// two sets: operations on either, set operations with the other set as the argument
+					if rng.Intn(10) < 4 {
+						o.Set = 2
+					}
+					if (op == "addset" || op == "removeset") && rng.Intn(2) == 0 {
+						o.Src = 3 - o.Set
+					}
+				}
+				rec.Ops = append(rec.Ops, o)
+			}
+			if id%4 == 1 {
+				// a set built from two boxes that share a plane, taken over by the still empty other set, then
+				// each of the two sets extended on its own
+				var bs [4][2][3]int
+				for b := range bs {
+					for i := 0; i < 3; i++ {
+						bs[b][0][i] = rng.Intn(6) - 3
+						bs[b][1][i] = bs[b][0][i] + 1 + rng.Intn(3)
+					}
+				}
+				ax := rng.Intn(3)
+				bs[0][0][ax] = rng.Intn(4) - 3 // (everything stays inside the probe lattice)
+				bs[0][1][ax] = bs[0][0][ax] + 1 + rng.Intn(2)
+				bs[1][0][ax] = bs[0][1][ax]
+				bs[1][1][ax] = bs[1][0][ax] + 1 + rng.Intn(2)
+				rec.Ops = []rectOp{
+					{Op: "add", Set: 2, Lo: bs[0][0][:], Hi: bs[0][1][:]},
+					{Op: "add", Set: 2, Lo: bs[1][0][:], Hi: bs[1][1][:]},
+					{Op: "addset", Set: 1, Src: 2, Lo: []int{0, 0, 0}, Hi: []int{0, 0, 0}},
+					{Op: "add", Set: 1 + rng.Intn(2), Lo: bs[2][0][:], Hi: bs[2][1][:]},
+					{Op: []string{"add", "remove"}[rng.Intn(2)], Set: 1 + rng.Intn(2), Lo: bs[3][0][:], Hi: bs[3][1][:]},
+				}
 			}
 			rec.Panic = protect(func() {
-				rs := toolbox3d.NewRectSet()
+				sets := [2]*toolbox3d.RectSet{toolbox3d.NewRectSet(), toolbox3d.NewRectSet()}
 				for _, o := range rec.Ops {
 					r := model3d.NewRect(model3d.XYZ(float64(o.Lo[0]), float64(o.Lo[1]), float64(o.Lo[2])),
 						model3d.XYZ(float64(o.Hi[0]), float64(o.Hi[1]), float64(o.Hi[2])))
-					one := toolbox3d.NewRectSet()
-					one.Add(r)
+					arg := toolbox3d.NewRectSet()
+					if o.Src != 0 {
+						arg = sets[o.Src-1]
+					} else if o.Op == "addset" || o.Op == "removeset" {
+						arg.Add(r)
+					}
+					rs := sets[o.Set-1]
 					switch o.Op {
 					case "add":
 						rs.Add(r)
 					case "remove":
 						rs.Remove(r)
 					case "addset":
-						rs.AddRectSet(one)
+						rs.AddRectSet(arg)
 					default:
-						rs.RemoveRectSet(one)
+						rs.RemoveRectSet(arg)
 					}
 				}
+				rs := sets[0]
 				solid := rs.Solid()
+				solid2 := sets[1].Solid()
 				var e1, e2, e3, e4 bool
 				rec.Smin, e1 = scaledVec(c3v(rs.Min()), 2)
 				rec.Smax, e2 = scaledVec(c3v(rs.Max()), 2)
@@ -104,6 +148,9 @@ func init() {
 							idx++
 							if solid.Contains(model3d.XYZ(float64(x)/2, float64(y)/2, float64(z)/2)) {
 								rec.Inside = append(rec.Inside, idx)
+							}
+							if solid2.Contains(model3d.XYZ(float64(x)/2, float64(y)/2, float64(z)/2)) {
+								rec.Inside2 = append(rec.Inside2, idx)
 							}
 						}
 					}
